@@ -505,6 +505,38 @@ fn gen_c13(sink: &mut Sink, tier: &str, seed: u64) {
             }
         }
     }
+    // values whose own Encode impl writes in several steps: the iterator encoders under every kind of size hint (definite and
+    // indefinite framing), collections, tuples, options - at every capacity
+    macro_rules! val_events { ($v:expr) => {{
+        let v = $v;
+        if let Ok(reference) = minicbor::to_vec(&v) {
+            sink.distinct_inputs += 1;
+            let len = reference.len();
+            for kind in ["slice", "cslice", "carray", "cbox", "iowslice", "vec"] {
+                let caps: Vec<usize> = if kind == "vec" { vec![0] } else if len <= 48 { (0..=len + 1).collect() } else { vec![0, 1, len / 2, len - 2, len - 1, len, len + 1] };
+                for cap in caps {
+                    if kind == "carray" && !crate::sinks::CARRAY_CAPS.contains(&cap) { continue }
+                    if let Some(ev) = crate::sinks::encode_value_event(kind, cap, &v, &reference) { sink.put(ev) }
+                }
+            }
+        }
+    }}; }
+    let nvals = if tier == "thorough" { 300 } else { 40 };
+    for i in 0..nvals {
+        let n = rng.gen_range(0..5usize);
+        let xs: Vec<u64> = (0..n).map(|_| [1u64, 23, 24, 255, 256, 0x12345678, 0x1_0000_0000, u64::MAX][rng.gen_range(0..8)]).collect();
+        let (low, up) = match i % 4 { 0 => (n, Some(n)), 1 => (0, None), 2 => (0, Some(n + 3)), _ => (n.saturating_sub(1), Some(n)) };
+        val_events!(minicbor::encode::ArrayIter::new(crate::ops::Hinted::new(xs.clone(), n, low, up)));
+        let pairs: Vec<u64> = xs.iter().flat_map(|x| [*x, x ^ 0xff]).collect();
+        val_events!(minicbor::encode::MapIter::new(crate::ops::HintedPairs::new(crate::ops::Hinted::new(pairs, n, low, up))));
+        use crate::types::Abs;
+        val_events!(<Vec<u32>>::gen(&mut rng, 1));
+        val_events!(<(u8, String)>::gen(&mut rng, 1));
+        val_events!(<std::collections::BTreeMap<u8, String>>::gen(&mut rng, 1));
+        val_events!(<Option<Vec<u16>>>::gen(&mut rng, 1));
+        val_events!(<[i32; 3]>::gen(&mut rng, 1));
+        val_events!(<Result<u8, String>>::gen(&mut rng, 1));
+    }
 }
 
 /// C15: seeded random walks of the AsyncReader, one file per run.
